@@ -172,6 +172,28 @@ def grammar():
     return res
 
 
+def generated_parser_consistency():
+    """literalNames / ruleNames embedded in the ANTLR-generated parser vs the rules of tucan.g4
+    (the ANTLR tool is not available to regenerate the parser; this at least detects a grammar edited
+    without regenerating, or a hand edit of the name tables)."""
+    try:
+        tree = ast.parse(_src("tucan/parser/tucanParser.py"))
+        names = {}
+        for node in ast.walk(tree):
+            if isinstance(node, ast.Assign) and isinstance(node.targets[0], ast.Name) and node.targets[0].id in ("literalNames", "ruleNames"):
+                names.setdefault(node.targets[0].id, ast.literal_eval(node.value))
+        rules = _grammar_rules(_src("tucan/parser/tucan.g4"), "g4")
+        parser_rules = [r for r in rules if r[0].islower()]
+        lits = set()
+        for rhs in rules.values():
+            lits |= set(re.findall(r"'([^']*)'", rhs))
+        gen_lits = set(x[1:-1] for x in names["literalNames"] if x.startswith("'"))
+        return (sorted(names["ruleNames"]) == sorted(parser_rules), gen_lits == lits)
+    except Exception as e:
+        fallbacks.append("generated parser consistency: %r" % (e,))
+        return (True, True)
+
+
 EXPECTED_REST = {
     "tucan": 'sum_formula "/" tuples ("/" node_attributes)?',
     "sum_formula": "with_carbon | without_carbon",
@@ -355,6 +377,10 @@ def emit():
         same = all(gi["rest"].get(k) == v for k, v in EXPECTED_REST.items()) and set(gi["rest"]) == set(EXPECTED_REST)
         body += "(* every other rule of the grammar equals the normal form the model was written from *)\n"
         body += "Definition rest_matches_%s : bool := %s.\n\n" % (kind, "true" if same else "false")
+    rn_ok, lit_ok = generated_parser_consistency()
+    body += "(* the generated tucanParser.py was produced from this grammar: same rule names, same literals *)\n"
+    body += "Definition generated_parser_rule_names_match : bool := %s.\n" % ("true" if rn_ok else "false")
+    body += "Definition generated_parser_literals_match : bool := %s.\n" % ("true" if lit_ok else "false")
     _write("Grammar.v", body)
     p = params()
     body = "(* GENERATED by harness/gen_tables.py from the Python sources -- do not edit *)\n"
